@@ -41,8 +41,52 @@ def extensibleHash (e : Extensible) : Bytes :=
     (Codec.seq (Codec.uintLE 4) (Codec.seq (Codec.fixed 20) (Codec.varBytes Generated.WireLimits.payloadMaxSize))))).enc
     (e.category, e.validStart, e.validEnd, e.sender, e.data))
 
+/-- stack items: the re-encoding can fail (the decoder has no total-size limit, the serialiser has). -/
+def itemObs (prot : Bool) (b : Bytes) : String :=
+  match Item.decode prot b with
+  | none => "err"
+  | some (v, r) =>
+    let shown := joinToks (showItem v)
+    if prot then
+      s!"ok rest={r.length} enc={Hex.encode (Item.serializeProtected v)} hash=- v={shown}"
+    else
+      match Item.serialize false v with
+      | some e => s!"ok rest={r.length} enc={Hex.encode e} hash=- v={shown}"
+      | none => s!"ok rest={r.length} enc=? v={shown}"
+
+def itemEncObs (prot : Bool) (ts : List String) : String :=
+  match pItem ts with
+  | some (v, []) =>
+    if prot then
+      let e := Item.serializeProtected v
+      s!"{Hex.encode e} size={e.length}"
+    else
+      match Item.serialize false v with
+      | some e => s!"{Hex.encode e} size={e.length}"
+      | none => "err"
+  | _ => "bad-value"
+
+def nodeObs (b : Bytes) : String :=
+  match Node.decode b with
+  | none => "err"
+  | some (v, r) =>
+    let h := match Node.hashOf Sha256.hash2 v with
+      | some x => Hex.encode x
+      | none => "-"
+    s!"ok rest={r.length} enc={Hex.encode (Node.enc Sha256.hash2 v)} hash={h} v={joinToks (showNode v)}"
+
+def nodeEncObs (ts : List String) : String :=
+  match pNode ts with
+  | some (v, []) =>
+    let e := Node.enc Sha256.hash2 v
+    s!"{Hex.encode e} size={e.length}"
+  | _ => "bad-value"
+
 def decOp (name : String) (b : Bytes) : String :=
   match name with
+  | "mptnode" => nodeObs b
+  | "item" => itemObs false b
+  | "itemprot" => itemObs true b
   | "witness" => decObs witnessC (fun _ => none) showWitness b
   | "cond" => decObs (condC p256 Generated.WireLimits.maxConditionNesting) (fun _ => none) showCond b
   | "rule" => decObs (ruleC p256) (fun _ => none) showRule b
@@ -59,6 +103,9 @@ def decOp (name : String) (b : Bytes) : String :=
 
 def encOp (name : String) (ts : List String) : String :=
   match name with
+  | "mptnode" => nodeEncObs ts
+  | "item" => itemEncObs false ts
+  | "itemprot" => itemEncObs true ts
   | "witness" => encObs witnessC pWitness ts
   | "cond" => encObs (condC p256 Generated.WireLimits.maxConditionNesting) pCond ts
   | "rule" => encObs (ruleC p256) pRule ts
